@@ -254,3 +254,17 @@ def report(ctx, pid, replay_program=None):
     for s in res["samples"]:
         ctx.sample(s)
     return res
+
+
+def run_check(ctx, pid):
+    """Body of the checks that are decided by the IRC-layer engine plus this stage."""
+    rp = None
+    if getattr(ctx, "replay", None):
+        with open(ctx.replay) as fh:
+            rp = (json.load(fh).get("replay") or {}).get("rig_program")
+    if rp:
+        report(ctx, pid, replay_program=rp)
+        return
+    irc_common.report(ctx, pid)
+    if not getattr(ctx, "replay", None):
+        report(ctx, pid)
